@@ -142,7 +142,10 @@ def configs(ctx):
     e4 = E_("Z", ["m", "n", "p", "q"], times_(T_("A", "m", "n", "p", "q"), T_("B", "m", "n", "p", "q")))
     for part, ext in (({"(M, N)": ["flatten()"], "(P, Q)": ["flatten()"]}, {"M": 2, "N": 1, "P": 2, "Q": 1}),
                       ({"(M, P)": ["flatten()"], "(N, Q)": ["flatten()"]}, {"M": 2, "N": 1, "P": 2, "Q": 1}),
-                      ({"M": ["uniform_shape(2)"], "(P, Q)": ["flatten()"]}, {"M": 3, "N": 1, "P": 2, "Q": 1})):
+                      ({"M": ["uniform_shape(2)"], "(P, Q)": ["flatten()"]}, {"M": 3, "N": 1, "P": 2, "Q": 1}),
+                      ({"(M, N)": ["flatten()"], "P": ["uniform_shape(2)"], "(Q, P0)": ["flatten()"]}, {"M": 2, "N": 1, "P": 3, "Q": 1}),
+                      ({"(M, N)": ["flatten()"]}, {"M": 2, "N": 2, "P": 1, "Q": 2}),
+                      ({"(N, P)": ["flatten()"]}, {"M": 2, "N": 2, "P": 1, "Q": 2})):
         work.append({"tag": "EW4/flat2:" + "+".join(part), "spec": {"decl": d4, "exprs": [e4], "mapping": {"partitioning": {"Z": part}}},
                      "extents": [ext], "allowed_rejects": STATED_REJECTS})
     # identical (Einsum, mapping, sizes) generated through different tensors: keep one
